@@ -185,8 +185,15 @@ class ModelBackend(Backend):
         if n.content is None:
             return ("opaque", n.cid)
         out = []
-        for piece in b"".join(n.content).decode("utf-8").split("\x00"):
-            out.append(piece)
+        text = b"".join(n.content).decode("utf-8", "replace")
+        pos = 0
+        for m in tokens.KEY_RE.finditer(text):
+            if m.group(1) != "XML":
+                continue
+            out.append(text[pos:m.start()])
+            out.append(("el", tokens.lookup(m.group(0)).el))
+            pos = m.end()
+        out.append(text[pos:])
         return ("xml", out)
 
     def same_bytes(self, fa, fb):
@@ -200,13 +207,13 @@ class ModelBackend(Backend):
             return False
         res = True
         for x, y in zip(a, b_):
-            if x.startswith("XML") and y.startswith("XML") and x[3:].isdigit() and y[3:].isdigit():
-                r = _same_el(tokens.lookup("\x00%s\x00" % x).el, tokens.lookup("\x00%s\x00" % y).el)
+            if isinstance(x, tuple) and isinstance(y, tuple):
+                r = _same_el(x[1], y[1])
                 if r is False:
                     return False
                 if r is not True:
                     res = r if res is True else (res & r)
-            elif x != y:
+            elif isinstance(x, tuple) or isinstance(y, tuple) or x != y:
                 return False
         return res
 
@@ -487,7 +494,14 @@ class ModelBackend(Backend):
         w.crash_at = None if o.get("crash_at") is None else len(w.ops) + o["crash_at"]
         w.crash_torn = bool(o.get("torn"))
         try:
-            fn(**kw)
+            try:
+                fn(**kw)
+            finally:
+                killed = isinstance(sys.exc_info()[1], self.W.Crash)
+                for wf in list(w.open_writers):
+                    if not killed:
+                        wf.collect()  # file objects left open are flushed when they are garbage collected
+                w.open_writers = []
         except self.W.Crash:
             exit_code, exc = "killed", "Crash"
         except click.ClickException as ex:
